@@ -34,25 +34,41 @@ vars_ == <<chain, start, k, sv, cv, bv, rv, vars, al, done>>
 
 RECURSIVE VarsOf(_)
 VarsOf(e) == IF e.k = "var" THEN {e.v} ELSE UNION {VarsOf(e.ch[j]) : j \in 1..Len(e.ch)}
-NVars(e) == IF e.k = "var" THEN 1 ELSE Len(e.ch)
+NVars(e) == Cardinality(VarsOf(e))
 
 Plain == {Var(v) : v \in Pool}
 Pairs == {<<Var(a), Var(b)>> : a, b \in Pool} \ {<<Var(a), Var(a)>> : a \in Pool}
 \* Combine(a, b, name="K", type="pair", title="T")
 KwPair == [name |-> <<"K">>, type |-> "pair", attrs |-> ("title" :> S(<<"T">>)), g |-> ""]
+V(name, type, attrs, g) == [name |-> <<name>>, type |-> type, attrs |-> attrs, g |-> g]
+KwAttr == [name |-> <<>>, type |-> "", attrs |-> ("title" :> S(<<"T">>)), g |-> ""]
+\* getters that return None / a pair / the first component of a tuple
+VNone == V("nothing", "flag", <<>>, "none")
+VPair == V("pp", "pairtype", <<>>, "pair")
+VFirst == V("fst", "component", <<>>, "first")
 Elems == Plain \cup (IF Nested THEN {Cmp(p) : p \in Pairs} \cup {Cmb(p) : p \in Pairs}
-                                     \cup {CmbKw(p, KwPair) : p \in Pairs} ELSE {})
+                                     \cup {CmbKw(p, KwPair) : p \in Pairs}
+                                     \cup {CmpKw(p, KwAttr) : p \in Pairs}
+                                     \* Combine inside Compose, Compose inside Combine
+                                     \cup {Cmp(<<Cmb(p), Var(VFirst)>>) : p \in Pairs}
+                                     \cup {Cmb(<<Cmp(p), Var(c)>>) : p \in Pairs, c \in Pool}
+                                     \cup {Var(VNone), Var(VPair), Cmp(<<Var(VPair), Var(VFirst)>>)}
+                      ELSE {})
+\* the expression yields data that no integer getter can take: only in the last position
+RECURSIVE TupleOut(_)
+TupleOut(e) == CASE e.k = "cmb" -> TRUE
+                 [] e.k = "var" -> e.v.g \in {"none", "pair"}
+                 [] OTHER -> TupleOut(e.ch[Len(e.ch)])
 \* chains by total number of underlying variables: elements use pairwise different variables,
 \* a Combine only in the last position
 RECURSIVE VarsOfChain(_), ChainsW(_)
 VarsOfChain(ch) == IF ch = <<>> THEN {} ELSE VarsOf(Head(ch)) \cup VarsOfChain(Tail(ch))
 OkAppend(c, e) == /\ VarsOf(e) \cap VarsOfChain(c) = {}
-                  /\ c = <<>> \/ c[Len(c)].k # "cmb"
+                  /\ c = <<>> \/ ~TupleOut(c[Len(c)])
+ElemsW(n) == {e \in Elems : NVars(e) = n}
 ChainsW(w) ==
   IF w = 0 THEN {<<>>}
-  ELSE LET c1 == ChainsW(w - 1)
-           c2 == IF w >= 2 THEN ChainsW(w - 2) ELSE {}
-       IN {Append(c, e) : c \in c1, e \in Plain} \cup {Append(c, e) : c \in c2, e \in Elems \ Plain}
+  ELSE UNION {{Append(c, e) : c \in ChainsW(w - n), e \in ElemsW(n)} : n \in 1..w}
 Chains == {ch \in UNION {ChainsW(w) : w \in 1..MaxLen} :
              \A j \in 1..Len(ch) : OkAppend(SubSeq(ch, 1, j - 1), ch[j])}
 
@@ -105,7 +121,11 @@ SeqDone == k = Len(chain)
 \* same data: vn.getter(...v1.getter(x)...)
 DataEq == (SeqDone /\ "compose" \in done) => sv.d = cv.d /\ cv.d = GetChain(chain, start.d)
 \* same context
-ComposeEqSeq == (SeqDone /\ "compose" \in done) => sv.c = cv.c
+\* (a chain with an untyped variable applied to a value whose context.variable is typed: the
+\* quantifier speaks of variables with distinct types and the documentation warns that an untyped
+\* variable loses the earlier descriptions - the Sequence drops them, Compose does not; not demanded)
+ComposeEqSeq == (SeqDone /\ "compose" \in done /\ ~(HasUntyped(chain) /\ PrevTypes(start.c) # <<>>))
+                   => sv.c = cv.c
 \* Combine produces the tuple of the getters' results, and describes its variables
 CombineTuple ==
   "combine" \in done =>
@@ -126,7 +146,9 @@ RECURSIVE Flat(_)
 Flat(ch) == IF ch = <<>> THEN <<>>
             ELSE (IF Head(ch).k = "cmp" THEN Flat(Head(ch).ch) ELSE <<Head(ch)>>) \o Flat(Tail(ch))
 NestedFlattens ==
-  (SeqDone /\ \A j \in 1..Len(chain) : chain[j].k # "cmb") =>
+  (SeqDone /\ AllTyped(Flat(chain)) /\ DistinctTypes(Flat(chain))
+           /\ \A j \in 1..Len(chain) : chain[j].k = "var" \/ (chain[j].k = "cmp" /\ chain[j].v.attrs = <<>>
+                                                                    /\ AllTyped(chain[j].ch))) =>
      sv.c.m["variable"] = Described(start.c, Flat(chain))
 \* context.variable carries the name (and attributes) of the resulting variable
 CarriesName ==
@@ -149,13 +171,18 @@ Repeatable == "repeat" \in done => rv = sv
 (***************************************************************************)
 (* Pools and starting contexts.                                            *)
 (***************************************************************************)
-V(name, type, attrs, g) == [name |-> <<name>>, type |-> type, attrs |-> attrs, g |-> g]
 Pool5 == {V("positron", "particle", "latex" :> S(<<"e+">>), "inc"),
-          V("x", "coordinate", <<>>, "dbl"),
+          \* attribute values that look like nothing: 0, None, "", [], {}
+          V("x", "coordinate", "scale" :> I("0") @@ "note" :> N @@ "label" :> S(<<>>)
+                               @@ "bins" :> L(<<>>) @@ "opts" :> EmptyD, "dbl"),
           V("mm", "length", "unit" :> S(<<"mm">>) @@ "range" :> L(<<"0", "100">>), "tri"),
           V("sq", "area", "unit" :> S(<<"mm2">>), "sq"),
           V("far", "detector", <<>>, "add5")}
+Untyped == V("u", "", "unit" :> S(<<"au">>), "add5")
 Pool4 == {v \in Pool5 : v.type # "detector"}
+Pool4U == Pool4 \cup {Untyped}
+Pool5U == Pool5 \cup {V("raw", "", <<>>, "inc")}
+Pool3U == {v \in Pool4 : v.type # "area"} \cup {Untyped}
 Pool3 == {v \in Pool4 : v.type # "area"}
 OldTyped == V("E", "energy", "unit" :> S(<<"MeV">>), "inc")
 OldTyped2 == V("t", "time", <<>>, "inc")
@@ -163,6 +190,9 @@ SameType == V("electron", "particle", "latex" :> S(<<"e-">>), "inc")
 StartsAll ==
   { EmptyD,
     D("data" :> D("run" :> S(<<"r1">>))),
+    \* a context.variable that looks like nothing
+    D("variable" :> EmptyD),
+    D("variable" :> N),
     D("variable" :> D("name" :> S(<<"old">>) @@ "unit" :> S(<<"u">>))),
     D("variable" :> VarContext(OldTyped)),
     D("variable" :> VarContext(OldTyped) @@ "data" :> D("run" :> S(<<"r1">>))),
@@ -173,6 +203,13 @@ StartsAll ==
     D("variable" :> VarContext(SameType)),
     D("variable" :> UpdateVar(VarContext(OldTyped2), VarContext(SameType))),
     D("variable" :> UpdateVar(VarContext(SameType), VarContext(OldTyped))) }
+
+\* a subset for the nested quick run: none, other key, empty, typed, typed composition,
+\* composition with a colliding type
+StartsB == { EmptyD, D("data" :> D("run" :> S(<<"r1">>))), D("variable" :> EmptyD),
+             D("variable" :> VarContext(OldTyped)),
+             D("variable" :> UpdateVar(VarContext(OldTyped2), VarContext(OldTyped))),
+             D("variable" :> UpdateVar(VarContext(SameType), VarContext(OldTyped))) }
 
 Emitted == Done => PrintT(ToJson([chain |-> chain, start |-> start, seq |-> sv, compose |-> cv, combine |-> bv,
                                   typed |-> AllTyped(chain) /\ DistinctTypes(chain),
